@@ -7,6 +7,8 @@ import (
 	"sync"
 	"time"
 
+	bpmn "github.com/olive-io/bpmn/v2"
+
 	"verifharness/internal/eng"
 	"verifharness/internal/rec"
 	"verifharness/internal/sched"
@@ -36,6 +38,9 @@ type genOpts struct {
 	maxNodes   int
 	maxDepth   int
 	errAnswers bool
+	// errNoExit: no handler that EXITS (the token ends at the task: inside a sub-process that empties the scope and the
+	// sub-process returns, inlined nothing returns — the two programs are not comparable on such an answer)
+	errNoExit bool
 	undeclared bool
 	// tailCtask: the program may end with an activity that has conditional outgoing flows. Several of them can
 	// be true, so several tokens leave it; to stay inside well-defined token semantics the branches contain
@@ -69,6 +74,10 @@ func genOptsC01(idx int, tier string) genOpts {
 		kinds:     []string{"task", "task", "seq", "seq", "xor", "xor", "par", "par", "incl", "loop", "sub"},
 		tailCtask: true,
 		maxNodes:  14, maxDepth: 3, undeclared: true, dataObjects: true, throws: true,
+	}
+	if idx%5 == 4 {
+		// a fifth of the programs: one answer in five is an ERROR (no handler / skip / retry / exit)
+		o.errAnswers = true
 	}
 	if tier == "thorough" {
 		o.maxNodes = 26
@@ -432,6 +441,39 @@ func runGraphCase(out *rec.Out, fam string, g *eng.Graph, vars map[string]any, v
 		if o.undeclared && rng.Intn(4) == 0 {
 			res["undeclared"] = 7
 			stats["answers_with_undeclared"]++
+		}
+		if o.errAnswers && rng.Intn(5) == 0 {
+			// an ERROR answer: without a handler (the token goes on), or with a handler that skips, retries once or twice
+			// (the task is requested again) or exits (the token ends there)
+			k := rng.Intn(4)
+			if o.errNoExit && k == 3 {
+				k = rng.Intn(3)
+			}
+			switch k {
+			case 0:
+				in.AnswerErr(q, 0, 0)
+				stats["answers_error_no_handler"]++
+			case 1:
+				in.AnswerErr(q, bpmn.SkipMode, 0)
+				stats["answers_error_skip"]++
+			case 2:
+				// (paired runs: an unlimited retry. The engine counts retry attempts per TOKEN, not per task visit — the
+				// counter is never reset when the token moves on — so a limited budget is used up differently when a
+				// sub-process gives the inner task a token of its own. That is retry accounting (C08: "at most the given
+				// number of additional times", an upper bound), not the sub-process mechanism.)
+				lim := int32(1 + rng.Intn(2))
+				if o.errNoExit {
+					lim = -1
+				}
+				in.AnswerErr(q, bpmn.RetryMode, lim)
+				stats["answers_error_retry"]++
+			default:
+				in.AnswerErr(q, bpmn.ExitMode, 0)
+				stats["answers_error_exit"]++
+			}
+			steps++
+			stats["answers"]++
+			continue
 		}
 		in.AnswerOK(q, res)
 		steps++
